@@ -35,9 +35,9 @@ class ContractInfo(NamedTuple):
 
 
 def get_contracts(
-    func: ast.FunctionDef | astroid.FunctionDef | astroid.UnboundMethod,
+    func: ast.FunctionDef | ast.AsyncFunctionDef | astroid.FunctionDef | astroid.UnboundMethod,
 ) -> Iterator[ContractInfo]:
-    if isinstance(func, ast.FunctionDef):
+    if isinstance(func, (ast.FunctionDef, ast.AsyncFunctionDef)):
         yield from _get_contracts(func.decorator_list)
         return
     if func.decorators is None:
